@@ -106,6 +106,8 @@ def run(F, ck, tier):
     # R11.8 simulated opening set: circuit, native verifier and prover build it alike (shared with R09.10)
     ck.rule('R11.8', 'the in-circuit builder of the simulated opening set takes the same number of powers per simulating challenge as the native verifier and the prover')
     c09.simulation_siblings(F, ck, 'R11.8')
+    # R11.9 (shared with R10.8)
+    c10.default_targets(F, ck, 'R11.9')
     # R11.6 exact pairing in STARK witness assignment
     ck.rule('R11.6', 'STARK witness assignment pairs targets with proof values exactly (zip_eq / fixed arrays / guard rejecting surplus values) and does not drop an optional part the circuit has no target for')
     from . import assign
